@@ -222,7 +222,9 @@ def run_mutants(prop_id, mod, a, ctx, idxs):
         jobs = [(prop_id, i, 'quick', a.repo, {rel: msrc}) for i in idxs]
         with ctx.Pool(min(a.jobs, max(1, len(jobs)))) as pool:
             results = pool.map(_verify_lemma, jobs, chunksize=1)
-        refuted = [o for r in results for o in r['obligations'] if not o['ok'] and o['status'] in ('sat', 'unsat')]
+        known = load_known()
+        refuted = [o for r in results for o in r['obligations'] if not o['ok'] and o['status'] in ('sat', 'unsat')
+                   and match_known(o, known, prop_id) is None]
         und = [r['undecided'] for r in results if r['undecided']] + [r['error'] for r in results if r['error']]
         out['tried'] += 1
         if refuted:
